@@ -63,7 +63,7 @@ func verif_InternalListener_Accept(l *InternalListener) {
 //verif:noblock (*~/pkg/util/net.InternalListener).PutConn props=C16,C11
 
 //verif:contract (*~/pkg/util/net.InternalListener).PutConn
-//verif:props C11 C08
+//verif:props C11 C08 C01
 func verif_InternalListener_PutConn(l *InternalListener, conn net.Conn) {
 	verif.ResetEvents()
 	err := l.PutConn(conn)
